@@ -83,7 +83,10 @@ rec-a-x set-rec-a-x! rec-b-y make-rec-a features eval""".split()
 
 ARGS = [
     "-1", "0", "1", "2", "4", "5", "6", "255", "256", "65536", "1048576", "4611686018427387903", "-4611686018427387904", "4611686018427387904", "-4611686018427387905",
-    "18446744073709551616", "-123456789012345678901234567890", "1/2", "-7/3", "1.5", "-0.0", "+nan.0", "+inf.0", "-inf.0", "1e308", "5e-324", "2+3i",
+    "18446744073709551616", "-123456789012345678901234567890",
+    # bignums produced by arithmetic, whose limb arrays are exactly full (2^64-1 in one limb, 2^128-1 in two) -- a literal of the same value has a spare limb
+    "(* 4294967295 4294967297)", "(- (* 4294967295 4294967297))", "(- (* 18446744073709551616 18446744073709551616) 1)", "(* (* 4294967295 4294967297) 18446744073709551616)",
+    "1/2", "-7/3", "1.5", "-0.0", "+nan.0", "+inf.0", "-inf.0", "1e308", "5e-324", "2+3i",
     "#t", "#f", "'()", "'sym", "'|weird sym|", "#\\a", "#\\x0", "#\\x10FFFF", "#\\x3bb", "(integer->char 55295)",
     "S0", "S5", "SU", "SLIT", '"inline literal"', '(make-string 3 #\\x1F600)', "V0", "V3", "VLIT", "BV0", "BV4", "#u8(1 2)", "L3", "LIMP", "CYC", "DEEP", "'(1 . 2)", "'((a . 1) (b . 2))",
     "car", "f0", "f1", "f2", "fr", "(lambda (x) (car x))", "K", "PARAM", "PROM", "RA", "RB", "rec-a", "CLOSED-IN", "CLOSED-OUT", "(open-input-string \"xyz\")", "(open-output-string)",
@@ -193,7 +196,7 @@ def gen_form(rng, light=False):
             src = "(map %s%s)" % (proc, "".join(" (list %s %s)" % (a, rng.choice(ARGS)) for a in args[:3]))
         else:
             src = "(%s%s)" % (proc, al)
-        return {"src": src, "kind": "hostile", "proc": proc, "cyclic": any(a in CYCLIC_ARGS for a in args)}
+        return {"src": src, "kind": "hostile", "proc": proc, "cyclic": any(a in CYCLIC_ARGS for a in args) or any(c in src for c in CYCLIC_ARGS)}
     if k == "benign":
         return {"src": rng.choice(BENIGN), "kind": "benign"}
     if k == "nested":
